@@ -338,3 +338,14 @@ PROPS["C07"] = _tx("C07", ["C07_initial", "C07_every_step", "C07_nak_split_wellf
     " Not stated as theorems (exercised by the lock-step stream only): 'the first pass tiles the file once, in order' and "
     "'every emitted PDU carries the transaction's ids / a length field equal to its payload' (the model computes the length "
     "with its own payload_len formula, compared with the real encoded_len on every emitted PDU).")
+
+PROPS["C18"] = _tx("C18", ["C18_receiver_initial", "C18_receiver_oneway", "C18_complete_only_if_all_received",
+                           "C18_sender_invariant", "C18_sender_oneway", "C18_sender_waits_with_closure",
+                           "C18_sender_reports_finished"], ["recv", "send"],
+    "Proof on both models: in unacknowledged mode the receiver's invariant (nothing but a Finished PDU can ever be queued, "
+    "and that only with closure) is inductive over every operation and the only PDU a step can emit is Finished-with-"
+    "closure; the delivery code of a finalisation is Complete exactly when metadata and all bytes are present; the sender "
+    "never enters the ACK-of-Finished phase, emits only Metadata / file data / EOF (/Prompt), ends on EOF without closure, "
+    "stays open with closure and ends on the Finished PDU reporting its outcome. Lock-step correspondence and oracles on "
+    "the real code (no ACK/NAK/KeepAlive in unacknowledged mode, closure wait, complete only if everything received).",
+    " 'up to its limits' (termination of the closure wait by the ACK/inactivity limits) is C03's.")
